@@ -13,8 +13,9 @@ As the code is:
   (trailing bytes ignored, short or ill-tagged input → `None`); `get_node_by_id` asks the zone
   map, then runs the standard library's branch-free binary search over the index.
 * `EpochStore` is a hash map epoch → block plus two counters (`total_size`, `epoch_count`) that
-  are bumped on *every* `freeze_epoch`, also when the epoch is already present (the old block is
-  replaced); `gc(min)` drops the blocks below `min` and subtracts what it dropped.
+  follow the map (since repair 086e8b7; before it they were bumped on *every* `freeze_epoch`, also
+  when the epoch was already present — kept as `Old.freeze`); `gc(min)` drops the blocks below
+  `min` and subtracts what it dropped.
 
 A record is the list of its eight integer fields in declaration order; `nodeWs` / `edgeWs` give the
 bit widths of the fields (the varint decoder rejects a tag wider than the field type).
@@ -234,16 +235,30 @@ def sumSizes : List (Nat × Block) → Nat
   | [] => 0
   | (_, b) :: rest => b.compressedSize + sumSizes rest
 
-/-- `EpochStore::freeze_epoch`: both counters are bumped unconditionally (`fetch_add`; the
-wrap-around at 2^64 is out of reach and not modelled). -/
+/-- `EpochStore::freeze_epoch` (after repair 086e8b7): `HashMap::insert` replaces the block of an
+already frozen epoch; then the old block's size is subtracted and `epoch_count` stays, otherwise
+`epoch_count` is bumped; the new size is added in both cases. (`fetch_sub` / `fetch_add` wrap at
+2^64; the subtraction never underflows — `c15_epoch_store_counters` — and the wrap-around of the
+additions is out of reach and not modelled.) -/
 def Store.freeze (s : Store) (epoch : Nat) (ns es : List KRec) : Store × List Entry × List Entry :=
+  let r := fromRecords epoch ns es
+  ({ blocks := insertBlock s.blocks epoch r.1,
+     totalSize := (match findBlock s.blocks epoch with
+                   | some old => s.totalSize - old.compressedSize
+                   | none => s.totalSize) + r.1.compressedSize,
+     epochCount := match findBlock s.blocks epoch with
+                   | some _ => s.epochCount
+                   | none => s.epochCount + 1 }, r.2.1, r.2.2)
+
+/-- the code before the repair: both counters were bumped unconditionally. -/
+def Old.freeze (s : Store) (epoch : Nat) (ns es : List KRec) : Store × List Entry × List Entry :=
   let r := fromRecords epoch ns es
   ({ blocks := insertBlock s.blocks epoch r.1,
      totalSize := s.totalSize + r.1.compressedSize,
      epochCount := s.epochCount + 1 }, r.2.1, r.2.2)
 
 /-- `EpochStore::gc`: the number of removed epochs. `fetch_sub` never wraps: the counters always
-dominate what the map holds (`c15_epoch_store_counters_dominate`), so truncated subtraction is exact. -/
+equal what the map holds (`c15_epoch_store_counters`), so truncated subtraction is exact. -/
 def Store.gc (s : Store) (minEpoch : Nat) : Store × Nat :=
   let gone := s.blocks.filter (fun p => decide (p.1 < minEpoch))
   let removed := gone.length
@@ -313,6 +328,11 @@ def specStep (sp : SpecStore) : Op → SpecStore
   | .gc m => (specGc sp m).1
 
 def Store.run (s : Store) (ops : List Op) : Store := ops.foldl Store.step s
+
+def Old.step (s : Store) : Op → Store
+  | .freeze e ns es => (Old.freeze s e ns es).1
+  | .gc m => (s.gc m).1
+def Old.run (s : Store) (ops : List Op) : Store := ops.foldl Old.step s
 def specRun (sp : SpecStore) (ops : List Op) : SpecStore := ops.foldl specStep sp
 
 end Grafeo.Epoch
